@@ -94,7 +94,8 @@ static void scenario() {
             vf_window(1); vf_gate_open(); Sq.try_put(3); Sq.try_put(2); g.wait_for_all(); join_all(ids); g.wait_for_all(); quiet = true; vf_window(0);
             if (f.order.size() != 4) vf_fail("sequencer_node forwarded %zu of 4 items", f.order.size()); for (int i = 0; i < 4; i++) if (f.order[i] != i) vf_fail("sequencer_node forwarded item %d at position %d", f.order[i], i); }
         else if (streq(k, "cont2")) {   // continue_node with two predecessors signalled from two threads: one body per complete round of signals
-            broadcast_node<continue_msg> A(g), B(g); int runs = 0; continue_node<continue_msg> C(g, [&](const continue_msg&) { runs++; enter(f, runs); leave(f); return continue_msg(); }); make_edge(A, C); make_edge(B, C);
+            NL cn{"C", 0};   /* a continue_node has no concurrency limit: the bodies of two complete rounds may overlap */
+            broadcast_node<continue_msg> A(g), B(g); int runs = 0; continue_node<continue_msg> C(g, [&](const continue_msg&) { int r = ++runs; enter(cn, r); leave(cn); return continue_msg(); }); make_edge(A, C); make_edge(B, C);
             auto ids = gated(1, initext, [&](int) { B.try_put(continue_msg()); B.try_put(continue_msg()); });
             vf_window(1); vf_gate_open(); A.try_put(continue_msg()); A.try_put(continue_msg()); join_all(ids); g.wait_for_all(); quiet = true; vf_window(0);
             if (runs != 2) vf_fail("continue_node with two predecessors ran %d times for two complete rounds of signals", runs); }
